@@ -213,6 +213,8 @@ def asan_reader_sweep(ck, tier, wd, rnd):
         for tail in (["close 0", "free 0"], ["chunk_data 0 1 -1", "validate_checksums 0", "free 0"]):
             body = readtrace.read_script("asw%d-%d" % (i, len(tail)), p, os.path.join(wd, "asw%d.out" % i), sizes, post=tuple(tail))
             n, _ev = _count(body, "asan")
+            if any(e["op"] in ("Crash", "Hang") for e in _ev):
+                ck.notes.append("allocation sweep (reader file %d) skipped: the run does not finish without any refused allocation on this tree" % i); continue
             for k in _points(n, tier, rnd, 40):
                 jobs.append((i, k, n, _arm(body, k, 1)))
     def work(j):
@@ -260,8 +262,9 @@ def asan_update_sweep(ck, tier, wd, rnd):
         i0 = [i for i, l in enumerate(L) if l.startswith("ctx ")][0]
         body = "\n".join(L) + "\n"
         L2 = list(L); L2.insert(i0, "alloc_arm 0"); L2.insert(-1, "alloc_stats")
-        st = [e for e in common.run_driver("\n".join(L2) + "\n", "asan") if e["op"] == "alloc_stats"]
-        n = st[0]["count"] if st else 0
+        ev0 = common.run_driver("\n".join(L2) + "\n", "asan")
+        st = [e for e in ev0 if e["op"] == "alloc_stats"]
+        n = st[0]["count"] if st and not any(e["op"] in ("Crash", "Hang") for e in ev0) else 0
         for k in _points(n, tier, rnd, 60):
             sc = delta.Scenario("au%d-a%d" % (comp, k), wd, B, b"", sources=[A], limit=limit, frag=frag); sc.write_files()
             lines = sc.script().splitlines(); lines.insert(i0, "alloc_arm %d 1" % k)
@@ -323,6 +326,8 @@ def asan_writer_sweep(ck, tier, wd, rnd):
             L += ["close 0", "free 0", "end"]
             return "\n".join(L) + "\n"
         n_alloc, _ev = _count(script("asww%d-base" % i), "asan")
+        if any(e["op"] in ("Crash", "Hang") for e in _ev):
+            ck.notes.append("allocation sweep (writer %d) skipped: the run does not finish without any refused allocation on this tree" % i); continue
         for k in _points(n_alloc, tier, rnd, 50):
             jobs.append((i, k, n_alloc, script("asww%d-a%d" % (i, k)).replace("ctx 0\n", "alloc_arm %d 1\nctx 0\n" % k, 1)))
     def work(j):
